@@ -115,6 +115,21 @@ pub fn judge(ctx: &mut Ctx, c: &Case) {
   let (depth, dd, lon, lat, r) = (c.gu("depth") as u8, c.gu("dd") as u8, c.gf("lon"), c.gf("lat"), c.gf("r"));
   let mut rng = Rng::new(c.gu("s"), 11);
   let thr = thresholds();
+  // hostile call history (one cone in 6): just before the judged call, the same thread makes a sibling call that differs in ONE argument
+  // (longitude moved to the central meridian of its base cell / random, latitude mirrored, radius changed, depth changed): any state
+  // kept between calls and keyed on part of the arguments (a memo, a thread-local cache) is primed with a near-identical key
+  if c.gu("s") % 6 == 1 {
+    let q = std::f64::consts::FRAC_PI_2;
+    let (l2, b2, r2, d2) = match (c.gu("s") / 6) % 5 {
+      0 => ((lon / q).floor() * q + q / 2.0, lat, r, depth),
+      1 => (rng.f() * TWO_PI, lat, r, depth),
+      2 => (lon, -lat, r, depth),
+      3 => (lon, lat, (r * 1.5).min(PI), depth),
+      _ => (lon, lat, r, if depth > 0 { depth - 1 } else { depth + 1 }),
+    };
+    let _ = catch(|| if dd == 0 || d2 + dd > 29 { nested::cone_coverage_approx(d2, l2, b2, r2) } else { nested::cone_coverage_approx_custom(d2, dd, l2, b2, r2) });
+    ctx.hard("cone:judged-right-after-a-sibling-call(one-argument-changed)", &[depth as u64, dd as u64, lon.to_bits(), lat.to_bits(), r.to_bits()]);
+  }
   ctx.eval();
   precall(c);
   let res = catch(|| if dd == 0 { nested::cone_coverage_approx(depth, lon, lat, r) } else { nested::cone_coverage_approx_custom(depth, dd, lon, lat, r) });
